@@ -82,21 +82,21 @@ def events(seed, full=True):
     ev.append(('extend_items', 'second-wrong-length', (L[2], L[1])))
     # --- derivations
     for d in ('drop.iloc[rows]', 'drop[first]', 'to_frame', 'to_frame_go', 'iloc[:, :]', 'getitem[first]', 'relabel', 'rename', 'sort_columns', 'reindex', 'mul', 'iter_series', 'transpose',
-              'set_index', 'iter_group', 'iter_group-list', 'iter_group-list-grow', 'columns-static', 'deepcopy-grow', 'to_frame_go-grow'):
+              'set_index', 'iter_group', 'iter_group-list', 'iter_group-list-grow', 'columns-static', 'deepcopy-grow', 'to_frame_go-grow', 'relabel-columns-callable'):
         ev.append(('derive', d))
     # --- reads
     for r in ('values', 'shape', 'columns.values', 'dtypes', 'loc[last-col]', 'loc[:, slice]'):
         ev.append(('read', r))
     if not full:
         # the quick tier keeps every growth call and fault, the derivations that can share state, and two reads
-        keep = {'loc[:, slice]', 'iter_group-list', 'iter_group-list-grow', 'drop.iloc[rows]', 'to_frame', 'to_frame_go', 'iloc[:, :]', 'rename', 'relabel', 'sort_columns', 'columns-static', 'to_frame_go-grow', 'deepcopy-grow', 'values', 'columns.values'}
+        keep = {'relabel-columns-callable', 'columns.values', 'loc[:, slice]', 'iter_group-list', 'iter_group-list-grow', 'drop.iloc[rows]', 'to_frame', 'to_frame_go', 'iloc[:, :]', 'rename', 'relabel', 'sort_columns', 'columns-static', 'to_frame_go-grow', 'deepcopy-grow', 'values', 'columns.values'}
         ev = [e for e in ev if e[0] not in ('derive', 'read') or e[1] in keep]
         ev = [e for e in ev if e not in (('set', L[2], 'frame'), ('set', L[2], 'array-2d'), ('extend', 'frame-empty', ()), ('set', L[2], 'list'))]
     return ev
 
 
 def scope(tier):
-    return dict(depth=3, alphabet='reduced (24 events)' if tier == 'quick' else 'full (39 events)')
+    return dict(depth=3, alphabet='reduced (26 events)' if tier == 'quick' else 'full (40 events)')
 
 
 def cases(tier):
@@ -471,6 +471,13 @@ def run_case(case, ctx):
                         d = f[[model.labels[0]]]
                     elif name == 'relabel':
                         d = f.relabel(index=('i', 'j', 'k'))
+                    elif name == 'relabel-columns-callable':
+                        # the column labels passed through a function, as the first use of the labels after a growth: every column is still there, under its label
+                        d = f.relabel(columns=lambda l: l)
+                        gl = [tuple(x) if isinstance(x, (np.ndarray, tuple)) else x for x in (d.columns if d.columns.depth > 1 else d.columns.values.tolist())]
+                        if gl != list(model.labels) or d.shape != (3, len(model.labels)):
+                            ctx.violation('derive:relabel-columns-callable|result-does-not-hold-every-column', **info, got=gl, expected=list(model.labels))
+                            return False
                     elif name == 'rename':
                         d = f.rename('other')
                     elif name == 'sort_columns':
